@@ -62,9 +62,14 @@ CHECKS = {
          "100/1000/10000/100000 levels. " + TB),
  "C06": ("Theorems: whatever layer B accepts is exactly what the reference decoder assigns (sound, complete, errors "
          "agree); chunk confinement = the simulation relation (a region denotes a sub-list at every step); accepted "
-         "input is suffix-independent; arrays need exactly N elements. Tie: tampered encodings of evolved/nested records, "
+         "input is suffix-independent; arrays need exactly N elements; DenoteProofs (2550 lines): EVERY value the decoder "
+         "returns, from any accepted input, is a well-formed value of the type and its own normal form "
+         "(C06_decoded_values_are_wellformed), and the canonical encoding of that value denotes the same value (C06_denotes, "
+         "C06_denotes_evolved). Tie: tampered encodings of evolved/nested records, "
          "arrays, maps: implementation Ok(v) only where the reference says Ok(v).",
-         "6 C06", "C06_denotes (accepted bytes are a lenient encoding of the value) is not proved. " + TB),
+         "6 C06", "C06_denotes is proved for declarations without evolution steps; with steps the size limits of the format cannot "
+         "be excluded from a bound on the input (C06_denotes_evolved classifies the writer's outcomes). Hypothesis defaults_wf: "
+         "declared defaults are values of their fields' types (Rust's type checker). " + TB),
  "C07": ("Theorems: for all suffixes s decode(encode v ++ s) leaves exactly s; consecutive values are read back "
          "consecutively; any accepted input is consumed as a prefix and is suffix-independent (TruncProofs.decA_stable).",
          "6 C07", "Cross-version (evolved reader/writer) self-delimitation is part of C03. " + TB),
